@@ -2,7 +2,7 @@
    Full-strength statement: C09 (see DESIGN.md section 7) (Cluster/Statements.v). Proved so far: the theorems below; what is
    not yet proved is decided on every run by the lock-step co-simulation (model = implementation on every
    explored schedule) together with the monitors run on the implementation's own observations. *)
-From RaftV Require Import Cluster.Statements Proofs.RVSpec Proofs.AESpec Witness.W_C09_D6.
+From RaftV Require Import Cluster.Statements Proofs.RVSpec Proofs.AESpec Witness.W_C09_D6 Proofs.MemberSpec.
 Open Scope N_scope.
 
 (* becomeFollower (every term change, every step-down) never touches the commit index, the applied index, the
@@ -17,3 +17,27 @@ Print Assumptions C09_step_down_frame.
 Theorem C09_state_machine_safety_refuted : ~ C09_statement.
 Proof. exact C09_refuted_by_D6. Qed.
 Print Assumptions C09_state_machine_safety_refuted.
+
+(* Membership requests, node level, every state: AddServer / RemoveServer change neither the log nor the configuration
+   unless the node is a leader that has committed an entry of its term and has no membership change pending ... *)
+Theorem C09_add_server_is_guarded : forall now n fid id v,
+  n_role n <> Leader \/ committed_this_term n = false \/ pending_conf_change n = true ->
+  let n' := api_add_server now n fid id v in
+  n_log n' = n_log n /\ n_conf n' = n_conf n /\ exists r, refused r /\ n' = respond n fid r.
+Proof. exact add_server_guard. Qed.
+Print Assumptions C09_add_server_is_guarded.
+
+Theorem C09_remove_server_is_guarded : forall now n fid id,
+  n_role n <> Leader \/ committed_this_term n = false \/ pending_conf_change n = true ->
+  let n' := api_remove_server now n fid id in
+  n_log n' = n_log n /\ n_conf n' = n_conf n /\ exists r, refused r /\ n' = respond n fid r.
+Proof. exact remove_server_guard. Qed.
+Print Assumptions C09_remove_server_is_guarded.
+
+(* ... and an accepted removal is itself pending (fix D7): no second change is computed from the stale configuration. *)
+Theorem C09_accepted_removal_is_pending : forall now n fid id,
+  n_role n = Leader -> committed_this_term n = true -> pending_conf_change n = false ->
+  is_member (conf_of n) id = true ->
+  pending_conf_change (api_remove_server now n fid id) = true.
+Proof. exact accepted_removal_is_pending. Qed.
+Print Assumptions C09_accepted_removal_is_pending.
